@@ -278,6 +278,7 @@ func checkC08(r *Run) {
 	r.Rule("C08.R1.layout", "encoder and decoder agree position by position on (flag guard, primitive) for the header and the series section; flag bit positions are pairwise distinct and bound to the same field on both sides; writeTimeRange/readTimeRange agree", 4)
 	r.Rule("C08.R2.alloc", "every allocation in the decode call tree whose size derives from bytes read off the wire is dominated by a bound check against an untainted value (or clamped by min)", 1)
 	r.Rule("C08.R4.order", "the encoder's sort order is total: sorter.Less is the strict lexicographic order on (keys, alignments, rawIndices), so series of one channel with equal alignment keep their order under the unstable sort.Sort", 1)
+	r.Rule("C08.R6.states", "the codec's backlog of channel-set states only grows: Codec.mu.states is allocated by the constructor and extended by processUpdates, and no entry is deleted or replaced (a frame encoded k updates ago must still decode)", 2)
 	r.Rule("C08.R5.fullread", "binary.Reader takes bytes from its underlying io.Reader only through io.ReadFull: the decoder discards the byte counts and assumes every read filled its buffer, and stream transports deliver messages in chunks", 4)
 	r.Rule("C08.R3.nopanic", "no builtin panic / lo.Must is reachable through static calls from the decode entry points", 4)
 
@@ -285,6 +286,7 @@ func checkC08(r *Run) {
 	checkDecodeAlloc(r, p)
 	checkDecodeNoPanic(r, p)
 	checkFullReads(r, p)
+	checkStateBacklog(r, p)
 	if less := p.Func(codecPkg, "sorter", "Less"); less == nil {
 		r.Undecide("C08.R4: sorter.Less not found")
 	} else {
@@ -911,4 +913,49 @@ func checkFullReads(r *Run, p *Prog) {
 func isIOReader(t types.Type) bool {
 	n, ok := types.Unalias(t).(*types.Named)
 	return ok && n.Obj().Pkg() != nil && n.Obj().Pkg().Path() == "io" && n.Obj().Name() == "Reader"
+}
+
+// checkStateBacklog decides C08.R6.
+func checkStateBacklog(r *Run, p *Prog) {
+	states := p.FieldOf(codecPkg, "Codec", "mu.states")
+	seq := p.FieldOf(codecPkg, "Codec", "mu.seqNum")
+	if states == nil || seq == nil {
+		r.Undecide("C08.R6: Codec.mu.states / Codec.mu.seqNum not found")
+		return
+	}
+	n := 0
+	for _, fn := range p.FuncsOfPkg(codecPkg) {
+		if fn.Body == nil {
+			continue
+		}
+		inspectNoLit(fn.Body, func(x ast.Node) bool {
+			st, ok := x.(ast.Stmt)
+			if !ok || !isStoreTo(fn, st, states) {
+				return true
+			}
+			n++
+			good, what := false, describe(st)
+			if as, ok := st.(*ast.AssignStmt); ok && len(as.Lhs) == 1 && len(as.Rhs) == 1 {
+				switch l := ast.Unparen(as.Lhs[0]).(type) {
+				case *ast.SelectorExpr:
+					// allocation: = make(map...)
+					if call, ok := ast.Unparen(as.Rhs[0]).(*ast.CallExpr); ok {
+						if bi, ok := Callee(fn, call).(*types.Builtin); ok && bi.Name() == "make" {
+							good = true
+						}
+					}
+				case *ast.IndexExpr:
+					// states[<seqNum field>] = s, the key being the freshly incremented counter
+					if sel, ok := ast.Unparen(l.Index).(*ast.SelectorExpr); ok && fieldVar(fn, sel) == seq {
+						good = true
+					}
+				}
+			}
+			r.Ob("C08.R6.states", "write of Codec.mu.states in "+fn.Name, posOf(p, st), good, what+": the backlog may only be allocated or extended at the current sequence number; deleting or overwriting a state makes frames encoded under it undecodable")
+			return true
+		})
+	}
+	if n < 2 {
+		r.Undecide("C08.R6: only %d writes of Codec.mu.states found (expected 2)", n)
+	}
 }
